@@ -7,4 +7,24 @@ META = {
         "note": "Trusted: Lean kernel; hand-written model of get_timeout_time/get_slices/get_time_limit; differential harness (virtual clock hook in common::now(), accessor for the crate-private get_time_limit); std::time::Duration arithmetic.",
         "design_ref": "DESIGN.md §4 C28",
     },
+    "C03": {
+        "text": "Theorems over every sequential history (any number of local queues, capacities, priorities, steal starts): pushed = popped + resident as multisets, at-most-once, totality, counter = size; and an interleaving invariant over any number of threads and schedules for the shared length counter (len = items at quiescence, never under-reports). Tied to the code by differential runs of both queues (oq, pq) and by real-thread runs compared at quiescence (qconc).",
+        "note": "Trusted: Lean kernel; hand-written models (Ordered/Plain/Run/LenCounter); crossbeam Injector/SkipMap and st3 Worker as linearizable objects; owner discipline of local handles; real-thread runs only sample schedules (the all-schedules claim is the theorem). Plain-queue theorems are not yet stated (model + correspondence only).",
+        "design_ref": "DESIGN.md §4 C03",
+    },
+    "C04": {
+        "text": "Termination theorems: the only unbounded loop (push_to_global) ends within count-done+1 iterations from EVERY state of the local map, hence every push/pop/history returns; all other loops are structurally recursive total functions. Tie: every real queue call runs under a watchdog in a forked child, a hang is an observed outcome that the model (fuel exhausted) must predict.",
+        "note": "Trusted: Lean kernel; models; crossbeam Steal::Retry loops (lock-freedom) are not modelled; the 1 s watchdog as the observation of non-termination.",
+        "design_ref": "DESIGN.md §4 C04",
+    },
+    "C05": {
+        "text": "Refinement of every queue of the system to an abstract stable sorted list: push = stable insertion, pop = head, equal priorities FIFO, keys ordered in every reachable state (overflow and steals included), single queue without overflow = stable sort; Int priorities (superset of i64). Tie: differential runs; at the first divergence the implementation's pop is checked against the model's residence (not-head => violation).",
+        "note": "Trusted: Lean kernel; models; residence tracking through the model up to the first divergence.",
+        "design_ref": "DESIGN.md §4 C05",
+    },
+    "C06": {
+        "text": "Tick arithmetic incl. u32 wrap (a multiple of 61 within any 61 pops), service of the shared queue on such a pop, and idle theorem (a local pop returns none only if every queue is empty) for all reachable states with capacity >= 1. Tie: differential runs with long pop bursts and idle-sibling patterns; starvation counter and idle check on the implementation history.",
+        "note": "Trusted: Lean kernel; models; capacity 0 idle case covered by correspondence only.",
+        "design_ref": "DESIGN.md §4 C06",
+    },
 }
